@@ -115,6 +115,32 @@ impl Prop for C11 {
             }
             docs = vec![Doc::plain(cur)];
         }
+        if !sweep && !deep && rng.pct(4) {
+            // a table: one parent with 33..300 occurrences of the same row element; most rows have the same few
+            // children, some are empty (in either spelling), a few carry text - anything that changes its mind after
+            // N occurrences, or treats the N-th empty row differently from the first, meets the rewrite and channel twins
+            let rows = *rng.pick(&[33usize, 40, 70, 130, 300]);
+            let row_name = rng.pick(&cfg.elem_names).clone();
+            let cols: Vec<String> = (0..rng.range(1, 3)).map(|_| rng.pick(&cfg.elem_names).clone()).collect();
+            let mut table = Elem::new(&docs[0].root.name.clone());
+            for i in 0..rows {
+                let mut row = Elem::new(&row_name);
+                row.selfclose = rng.pct(50);
+                if !(i > 0 && rng.pct(12)) {
+                    for c in &cols {
+                        let mut cell = Elem::new(c);
+                        cell.selfclose = rng.pct(50);
+                        if rng.pct(40) {
+                            cell.kids.push(Node::Text(rng.pick(&["1", "x", "true", " "]).to_string()));
+                        }
+                        row.kids.push(Node::Elem(cell));
+                    }
+                }
+                table.kids.push(Node::Elem(row));
+            }
+            let at = rng.below(docs.len());
+            docs[at] = Doc::plain(table);
+        }
         let mut alts = Vec::new();
         for d in &docs {
             let mut fired = Vec::new();
